@@ -325,6 +325,12 @@ EncCheck(ev) ==
          \cup Tag("oas_validate", ev.valid.ok /\ (d.frame.scheme = 0 => ev.valid.err = 9)
                                   /\ (d.frame.scheme # 0 => ev.valid.err = 0 /\ ev.valid.sig = d.frame.sig))
          \cup Prefix("reload", LayoutFails(d.lay, ev.back[1], 1))
+         \* the file written again from the reloaded library (last cycle) must be as truthful
+         \cup (IF Len(ev.files) = 0 THEN {}
+               ELSE LET d2 == Decode(ev.files[Len(ev.files)]) IN
+                    IF ~d2.ok THEN {"rewrite:strict_decoder_rejects:" \o d2.why}
+                    ELSE Prefix("rewrite:end", FrameFails(d2, ev.files[Len(ev.files)], ev.opts.flags, ev.opts.level))
+                         \cup Prefix("rewrite:std", StdPropFails(d2, ev.opts.flags, TRUE)))
          \cup Tag("reload_error_code", ev.errs[1] = (IF dangling THEN 4 ELSE 0))
          \cup Tag("files_closed", ev.fd = 0)
 
@@ -353,6 +359,11 @@ RefFails2(s, jr, j) == RefFails(s @@ [known |-> \E c \in DOMAIN j.cells : j.cell
 \* every reload equals the saved library on the grid; detected circles within tolerance; further cycles
 \* change nothing (projections identical from the first reload on); signatures valid
 \* circles: a reloaded circle is a polygon (with possibly different vertices) within tol of the original
+NameSeq(ps) == [i \in DOMAIN ps |-> ps[i].name]
+StdOnly(ps) == SelectSeq(ps, LAMBDA q : q.name \in StdNames)
+\* which standard properties a reloaded library carries, where: they are rewritten by every save but
+\* must neither multiply nor vanish
+StdNamesOf(j) == <<NameSeq(StdOnly(j.aprops)), [i \in DOMAIN j.cells |-> NameSeq(StdOnly(j.cells[i].aprops))]>>
 NoStdS(ps) == SelectSeq(ps, LAMBDA q : q.name \notin StdNames)
 \* reloaded projection j against the expected layout exp; strip: ignore the standard properties
 \* (they describe the file just written and are recomputed by every save)
@@ -386,6 +397,7 @@ CycleFails(ev) ==
     IF ~Supported(ev.pre) THEN {"unsupported_input"}
     ELSE Prefix("cycle1", RoundTrip(Expect(ev.src_after), ev.back[1], tol, FALSE))
          \cup UNION {Prefix("cycle" \o ToString(k), RoundTrip(Expect(ev.back[k - 1]), ev.back[k], tol, TRUE)
+                                                   \cup Tag("standard_property_names", StdNamesOf(ev.back[k]) = StdNamesOf(ev.back[1]))
                                                    \cup Tag("grid", ev.back[k].unit = ev.back[1].unit /\ ev.back[k].precision = ev.back[1].precision))
                      : k \in 2..Len(ev.back)}
          \cup Tag("error_codes", \A k \in DOMAIN ev.errs : ev.errs[k] \in {0, 4})
